@@ -128,3 +128,22 @@ def wf_registry(m):
 def same_agents(m1, m0):
     """the agent list (as a sequence of references) is unchanged"""
     return m1.agents.eq(m0.agents)
+
+# --- filters used by delete_agents ----------------------------------------------------------------------
+SETI = z3.ArraySort(I, z3.BoolSort())
+# klen(at, idf, S, k): number of agents among the first k whose id is NOT in S
+klen = RecFun('klen', [ARR_REF, H_INT, SETI], I,
+              base=lambda at, idf, S: z3.IntVal(0),
+              step=lambda at, idf, S, k, prev: prev + If(S[idf[at[k]]], 0, 1),
+              lemmas=[lambda ps, k, f: And(f(*ps, k) >= 0, Implies(k >= 0, f(*ps, k) <= k))])
+# kat(at, idf, S, j, k): the j-th such agent
+kat = RecFun('kat', [ARR_REF, H_INT, SETI, I], RefS,
+             base=lambda at, idf, S, j: NULL,
+             step=lambda at, idf, S, j, k, prev: If(And(Not(S[idf[at[k]]]), j == klen(at, idf, S, k)), at[k], prev),
+             lemmas=[lambda ps, k, f: Implies(And(0 <= ps[3], ps[3] < klen(ps[0], ps[1], ps[2], k)),
+                                              Not(ps[2][ps[1][f(*ps, k)]]))])
+# ndel(at, ty, idf, S, T, k): number of agents of type T among the first k whose id IS in S
+ndel = RecFun('ndel', [ARR_REF, H_STR, H_INT, SETI, StrS], I,
+              base=lambda at, ty, idf, S, T: z3.IntVal(0),
+              step=lambda at, ty, idf, S, T, k, prev: prev + If(And(S[idf[at[k]]], ty[at[k]] == T), 1, 0),
+              lemmas=[lambda ps, k, f: f(*ps, k) >= 0])
